@@ -38,6 +38,7 @@ Mirrors the Go code of /repo **as it is now** (after the `fix:` commits), functi
 | `types/deferred.go     deferred.Equals` (name and the arguments as an Array), no `ToKey` | `veq` (`.deferred`)  |
 | `internal/parameter.go parameter.Equals` (name, captures, HasValue, type, Value()), no `ToKey` | `veq` (`.param`) |
 | `types/types.go        appendKey` last arm (`INVALID_MAP_KEY` for a value without `ToKey`) | `keyable`            |
+| `types/objectvalue.go  attributeSlice.Equals`, `equalityPositions`, `valueAt` (an instance of an Object type: by position for the same type, by attribute NAME across two types without `equality_include_type`), no `ToKey` | `veq` (`.obj`), `objPre`, `objSelAt`, `veqSel`, `OType` |
 
 Quirks reproduced on purpose: a top-level string is keyed by its raw bytes (so it can collide with another value's key:
 known finding C07-raw-string-key); `Variant`/`Enum` equality ignores member order while their keys do not (known finding
@@ -55,8 +56,9 @@ repaired in /repo 2f932dc); the original string is still what `String()` prints 
 TypedName, Deferred and Parameter values have no `ToKey`: `px.ToKey` reports `INVALID_MAP_KEY` for them (and for every
 container that holds one), exactly as for a Sensitive — but they do have an `Equals`.
 
-Not modelled (no theorem speaks about them): object instances, and every
-type other than the eleven above (in particular the String types with a size or a value, Struct, Hash, Pattern, Object).
+Not modelled (no theorem speaks about them): reflected objects (`reflectedObject`), `objectType.Equals` itself (an op states the
+descriptor of the instance's type; the harness checks it against `AttributesInfo()` and checks that two catalogue types are
+`Equals` exactly when their descriptors are equal), and every type other than those listed above (in particular the String types with a size or a value, Struct, Hash, Pattern, Object).
 -/
 namespace Pcore.ValueEq
 
@@ -437,6 +439,16 @@ end
 
 /-! ## values -/
 
+/-- what `attributeSlice.Equals` reads of an Object type: its identity (two catalogue types are `Equals` exactly when their
+    descriptors are equal — checked on every run), `equality_include_type`, the attribute names by position (inherited ones
+    first) and `AttributesInfo().EqualityAttributeIndex()` (every position when no `equality` is declared) -/
+structure OType where
+  name : Bytes
+  incl : Bool
+  names : List Bytes
+  eqPos : List Nat
+  deriving DecidableEq, Inhabited
+
 inductive Val where
   | undef | dflt
   | bool (b : Bool)
@@ -458,7 +470,37 @@ inductive Val where
   | tname (auth ns name : Bytes)
   | deferred (name : Bytes) (args : List Val)
   | param (name : Bytes) (t : Ty) (hasV : Bool) (v : Val) (capt : Bool)   -- `v` = `Value()`: `undef` when there is none
+  | obj (t : OType) (vs : List Val)                   -- an object instance: one value per attribute position (`valueAt`)
   deriving Inhabited
+
+/-- what one attribute of the receiver is compared with -/
+inductive Sel where
+  | skip              -- the attribute does not participate in equality
+  | fail              -- the argument has no counterpart: not Equal
+  | cmp (w : Val)     -- `px.Equals(o.valueAt(ai, i), w)`
+
+/-- `NameToPos()[n]` (names are unique within a type) -/
+def posOf : List Bytes → Bytes → Option Nat
+  | [], _ => none
+  | m :: ms, n => if m == n then some 0 else (posOf ms n).map (· + 1)
+
+/-- `attributeSlice.Equals`, before any value is compared: the same type, or two types that both declare
+    `equality_include_type => false` and compare the same number of attributes -/
+def objPre (t t' : OType) : Bool := t == t' || (!t.incl && !t'.incl && t.eqPos.length == t'.eqPos.length)
+
+/-- the counterpart of the receiver's attribute `i` in the argument: the same position for the same type, else the attribute
+    of the same NAME, which must participate in the argument's equality too -/
+def objSelAt (t t' : OType) (ws : List Val) (i : Nat) : Sel :=
+  if !t.eqPos.contains i then .skip
+  else if t == t' then (match ws[i]? with | some w => .cmp w | none => .fail)
+  else match t.names[i]? with
+    | none => .fail
+    | some n =>
+      match posOf t'.names n with
+      | none => .fail
+      | some j => if t'.eqPos.contains j then (match ws[j]? with | some w => .cmp w | none => .fail) else .fail
+
+def objSel (t t' : OType) (ws : List Val) (n : Nat) : List Sel := (List.range n).map (objSelAt t t' ws)
 
 /-- `appendElementKey` marks a string element -/
 def mark : Val → Bytes
@@ -489,6 +531,7 @@ def kb : Val → Bytes
   | .tname _ _ _ => []
   | .deferred _ _ => []
   | .param _ _ _ _ _ => []
+  | .obj _ _ => []
 /-- the framed element keys of an array, concatenated -/
 def kbL : List Val → Bytes
   | [] => []
@@ -509,6 +552,7 @@ def keyable : Val → Bool
   | .tname _ _ _ => false
   | .deferred _ _ => false
   | .param _ _ _ _ _ => false
+  | .obj _ _ => false
   | .array vs => keyableL vs
   | .hash es => keyableE es
   | .entry k v => keyable k && keyable v
@@ -573,10 +617,18 @@ def veq : Val → Val → Bool
       match y with
       | .param n' t' h' v' c' => n == n' && c == c' && h == h' && tyEq t t' && veq v v'
       | _ => false
+  | .obj t vs, y => match y with | .obj t' ws => objPre t t' && veqSel vs (objSel t t' ws vs.length) | _ => false
 /-- pointwise `vs[i].Equals(ws[i])` (lengths already compared) -/
 def veqL : List Val → List Val → Bool
   | [], _ => true
   | v :: vs, ws => match ws with | w :: ws' => veq v w && veqL vs ws' | [] => false
+/-- the attribute values of the receiver, each against its counterpart -/
+def veqSel : List Val → List Sel → Bool
+  | [], _ => true
+  | v :: vs, ss =>
+    match ss with
+    | s :: ss' => (match s with | .skip => true | .fail => false | .cmp w => veq v w) && veqSel vs ss'
+    | [] => true
 /-- `for key, idx := range hv.valueIndex()`: every entry of the receiver that is in its index finds, by key bytes, an
     entry of the argument's index that it `Equals` -/
 def veqE : List (Val × Val) → List (Val × Val) → Bool
@@ -613,6 +665,7 @@ def hashKeysKeyable : Val → Bool
   | .sensitive v => hashKeysKeyable v
   | .deferred _ as => hashKeysKeyableL as
   | .param _ _ _ v _ => hashKeysKeyable v
+  | .obj _ vs => hashKeysKeyableL vs
   | _ => true
 def hashKeysKeyableL : List Val → Bool
   | [] => true
